@@ -1874,7 +1874,9 @@ def pretty_str(s, ctx, split_pattern=None):
             pattern=split_pattern,
         ))
 
-        if len(lines) == 1:
+        if len(lines) <= 1:
+            # Nothing to split. This includes the empty string,
+            # for which str_to_lines yields no lines at all.
             return flat_version
 
         parts = intersperse(
